@@ -6,6 +6,7 @@ import (
 	"fmt"
 	"math/big"
 	"math/rand"
+	"strings"
 )
 
 // Mut is one fault: a name, what the property demands of the result, and the edit.
@@ -100,6 +101,13 @@ func StateFaults(sc *Scenario, rng *rand.Rand) []Mut {
 		{"state-value-removed", "reject", func(p *ProofJ, e *Env) { p.IssuerData.State.Value = nil }},
 		{"state-value-malformed", "reject", func(p *ProofJ, e *Env) { p.IssuerData.State.Value = S("zz") }},
 		{"state-value-short", "reject", func(p *ProofJ, e *Env) { p.IssuerData.State.Value = S((*p.IssuerData.State.Value)[:62]) }},
+		{"state-value-0x-prefixed", "accept", func(p *ProofJ, e *Env) { p.IssuerData.State.Value = S("0x" + *p.IssuerData.State.Value) }},
+		{"roots-uppercase-hex", "accept", func(p *ProofJ, e *Env) {
+			p.IssuerData.State.Value = S(strings.ToUpper(*p.IssuerData.State.Value))
+			p.IssuerData.State.ClaimsTreeRoot = S(strings.ToUpper(*p.IssuerData.State.ClaimsTreeRoot))
+		}},
+		{"state-value-33-bytes", "reject", func(p *ProofJ, e *Env) { p.IssuerData.State.Value = S(*p.IssuerData.State.Value + "00") }},
+		{"state-value-odd-length", "reject", func(p *ProofJ, e *Env) { p.IssuerData.State.Value = S(*p.IssuerData.State.Value + "0") }},
 		{"state-value-attacker-published", "reject", func(p *ProofJ, e *Env) {
 			// a state the resolver would call published, unrelated to the roots given
 			as := sc.Attacker.State()
@@ -167,4 +175,3 @@ func DIDFaults(sc *Scenario) []Mut {
 		{"resolver-published-true", "accept", setAns(DIDAnswer{Published: BP(true)})},
 	}
 }
-
